@@ -89,6 +89,12 @@ def run_single(rng, res, idx):
         hist.append('train')
         F_now = s.ref.val('F')
         upd = s.ref.steps % F_now == 0
+        if not cfg['hook'] and rng.random() < 0.25:
+            # extra train-mode forward passes without a backward pass (only with factor updates in step(), where the
+            # statement's "mean over the accumulated micro-batches" is well defined separately for inputs and output-gradients)
+            for _ in range(rng.randint(1, 2)):
+                s.forward_only()
+            res.count('forward_only_passes')
         s.train_iteration()
         D = s.grads()
         kh.step(s.p, cfg)
